@@ -102,7 +102,7 @@ RULE = ("per element configuration (64 of them: Count, Sum, DSum, Mean[None|Sum(
         "up to 5 for the single-accumulator families) over {fill(v1), fill(v2), compute, reset}; Count with every history of up to "
         "3 (thorough 4) calls over {run(2 values), run(()), run(1 value), fill, compute, reset}; construction argument checks of "
         "Histogram, Vectorize, GroupBy; a regression corpus; plus seeded random histories fill* (compute|reset|fill)* of up to 12 "
-        "calls (quick 6 000, thorough 250 000) with ints (up to 1e30 for Sum), exactly summable floats of mixed magnitude "
+        "calls (quick 6 000, thorough 200 000) with ints (up to 1e30 for Sum), exactly summable floats of mixed magnitude "
         "(multiples of 2**-k, k up to 20), (data, context) pairs with flat and nested contexts; DSum, Mean(DSum()) and their "
         "Vectorize with arbitrary floats (denormals to 1e308, cancelling pairs, huge ints).  Every case also sends the "
         "specification vocabulary of the theorems (Model/C09Spec.lean) to the driver and compares it with Python references.  "
@@ -169,6 +169,8 @@ def _build(spec, zero=False):
     import lena.math
     import lena.structures
     k = spec["k"]
+    if k == "notfc":
+        return abs          # not a FillCompute element
     if k == "count":
         return lena.flow.Count(spec["name"], 0 if zero else spec["count0"])
     if k == "sum":
@@ -1397,6 +1399,8 @@ def _init_oracle(spec, res):
             want = "LenaTypeError"
         if not spec["list"] and spec["dim"] is None:
             want = "LenaTypeError"
+        if not spec["list"] and spec["inner"]["k"] == "notfc":
+            want = "LenaTypeError"      # "seq must be a FillCompute element or sequence"
     got = res.get("init_err")
     if got != want:
         return f"constructing {spec}: {got or 'no exception'}, documented: {want or 'no exception'}"
@@ -1640,6 +1644,7 @@ def _init_cases():
         for nseq in (0, 1, 3):
             cs.append({"el": {"k": "vec", "inner": sm, "list": True, "nseq": nseq, "dim": dim},
                        "ops": [["f", vv], ["c"]], "sh": 0})
+    cs.append({"el": {"k": "vec", "inner": {"k": "notfc"}, "list": False, "dim": 2}, "ops": [["f", vv], ["c"]], "sh": 0})
     for dim in (None, 1, 2):
         cs.append({"el": {"k": "vec", "inner": sm, "list": False, "dim": dim, "wrap": 2}, "ops": [["f", vv], ["c"]], "sh": 0})
         cs.append({"el": {"k": "vec", "inner": sm, "list": True, "nseq": 2, "dim": dim, "wrap": 1},
@@ -1832,7 +1837,7 @@ def gen_cases(ctx):
         depth = 4 if quick else (4 if big else 5)
         for h in _all_histories(alphabet, depth):
             yield {"el": spec, "ops": h, "sh": sh}
-    n = 6000 if quick else 250000
+    n = 6000 if quick else 200000
     for _ in range(n):
         yield _rand_case(rng, 12)
 
